@@ -81,15 +81,9 @@ pub open spec fn wallops_wf(s: VolatileState) -> bool {
     forall|n: String| #[trigger] s.wallops_users@.contains(n) <==> (s.users@.contains_key(n) && s.users@[n].modes.wallops)
 }
 pub open spec fn local_oper(m: UserModes) -> bool { m.local_oper || m.oper }
-pub open spec fn invisible_set(s: VolatileState) -> Set<String> {
-    s.users@.dom().filter(|n: String| s.users@[n].modes.invisible)
-}
-pub open spec fn oper_set(s: VolatileState) -> Set<String> {
-    s.users@.dom().filter(|n: String| local_oper(s.users@[n].modes))
-}
 pub open spec fn counters_wf(s: VolatileState) -> bool {
-    &&& s.invisible_users_count == invisible_set(s).len()
-    &&& s.operators_count == oper_set(s).len()
+    &&& s.invisible_users_count == inv_set(s.users@).len()
+    &&& s.operators_count == opr_set(s.users@).len()
     &&& s.max_users_count >= s.users@.len()
 }
 // one outgoing queue per registered user
@@ -133,4 +127,130 @@ pub open spec fn post_chan(oldc: Map<String, Channel>, newc: Map<String, Channel
     } else {
         (newc.contains_key(c) <==> oldc.contains_key(c)) && (oldc.contains_key(c) ==> newc[c] == oldc[c])
     }
+}
+
+// ---- cardinality lemmas for the counters (proved) ----
+pub open spec fn inv_set(m: Map<String, User>) -> Set<String> { m.dom().filter(|n: String| m[n].modes.invisible) }
+pub open spec fn opr_set(m: Map<String, User>) -> Set<String> { m.dom().filter(|n: String| local_oper(m[n].modes)) }
+pub proof fn lemma_inv_insert(m: Map<String, User>, k: String, u: User)
+    requires !m.contains_key(k)
+    ensures inv_set(m.insert(k, u)).len() == inv_set(m).len() + (if u.modes.invisible { 1int } else { 0int }),
+        inv_set(m).len() <= m.dom().len(),
+{
+    m.dom().lemma_len_filter(|n: String| m[n].modes.invisible);
+    if u.modes.invisible { assert(inv_set(m.insert(k, u)) =~= inv_set(m).insert(k)); }
+    else { assert(inv_set(m.insert(k, u)) =~= inv_set(m)); }
+}
+pub proof fn lemma_inv_remove(m: Map<String, User>, k: String)
+    requires m.contains_key(k)
+    ensures inv_set(m.remove(k)).len() == inv_set(m).len() - (if m[k].modes.invisible { 1int } else { 0int }),
+        m[k].modes.invisible ==> inv_set(m).len() >= 1,
+{
+    if m[k].modes.invisible { assert(inv_set(m.remove(k)) =~= inv_set(m).remove(k)); assert(inv_set(m).contains(k)); }
+    else { assert(inv_set(m.remove(k)) =~= inv_set(m)); }
+}
+pub proof fn lemma_inv_update(m: Map<String, User>, k: String, u: User)
+    requires m.contains_key(k)
+    ensures inv_set(m.insert(k, u)).len() == inv_set(m).len() - (if m[k].modes.invisible { 1int } else { 0int }) + (if u.modes.invisible { 1int } else { 0int }),
+{
+    lemma_inv_remove(m, k);
+    lemma_inv_insert(m.remove(k), k, u);
+    assert(m.remove(k).insert(k, u) =~= m.insert(k, u));
+}
+pub proof fn lemma_opr_insert(m: Map<String, User>, k: String, u: User)
+    requires !m.contains_key(k)
+    ensures opr_set(m.insert(k, u)).len() == opr_set(m).len() + (if local_oper(u.modes) { 1int } else { 0int }),
+        opr_set(m).len() <= m.dom().len(),
+{
+    m.dom().lemma_len_filter(|n: String| local_oper(m[n].modes));
+    if local_oper(u.modes) { assert(opr_set(m.insert(k, u)) =~= opr_set(m).insert(k)); }
+    else { assert(opr_set(m.insert(k, u)) =~= opr_set(m)); }
+}
+pub proof fn lemma_opr_remove(m: Map<String, User>, k: String)
+    requires m.contains_key(k)
+    ensures opr_set(m.remove(k)).len() == opr_set(m).len() - (if local_oper(m[k].modes) { 1int } else { 0int }),
+        local_oper(m[k].modes) ==> opr_set(m).len() >= 1,
+{
+    if local_oper(m[k].modes) { assert(opr_set(m.remove(k)) =~= opr_set(m).remove(k)); assert(opr_set(m).contains(k)); }
+    else { assert(opr_set(m.remove(k)) =~= opr_set(m)); }
+}
+pub proof fn lemma_opr_update(m: Map<String, User>, k: String, u: User)
+    requires m.contains_key(k)
+    ensures opr_set(m.insert(k, u)).len() == opr_set(m).len() - (if local_oper(m[k].modes) { 1int } else { 0int }) + (if local_oper(u.modes) { 1int } else { 0int }),
+{
+    lemma_opr_remove(m, k);
+    lemma_opr_insert(m.remove(k), k, u);
+    assert(m.remove(k).insert(k, u) =~= m.insert(k, u));
+}
+// counters depend only on the modes of the users
+pub proof fn lemma_sets_same_modes(a: Map<String, User>, b: Map<String, User>)
+    requires a.dom() == b.dom(), forall|n: String| a.contains_key(n) ==> (#[trigger] a[n]).modes == b[n].modes,
+    ensures inv_set(a) == inv_set(b), opr_set(a) == opr_set(b)
+{
+    assert(inv_set(a) =~= inv_set(b));
+    assert(opr_set(a) =~= opr_set(b));
+}
+
+pub open spec fn vs_same(a: VolatileState, b: VolatileState) -> bool {
+    &&& a.users@ == b.users@ && a.channels@ == b.channels@ && a.wallops_users@ == b.wallops_users@
+    &&& a.invisible_users_count == b.invisible_users_count && a.operators_count == b.operators_count
+    &&& a.max_users_count == b.max_users_count && a.nick_histories@ == b.nick_histories@
+    &&& a.quit_sender == b.quit_sender && a.quit_receiver == b.quit_receiver
+}
+// state_wf after the complete removal of user nk (proved)
+pub proof fn lemma_remove_user_wf(o: VolatileState, n: VolatileState, nk: String)
+    requires state_wf(o), o.users@.contains_key(nk),
+        n.users@ == o.users@.remove(nk),
+        forall|c: String| post_chan(o.channels@, n.channels@, c, nk),
+        n.wallops_users@ == o.wallops_users@.remove(nk),
+        n.invisible_users_count == o.invisible_users_count - (if o.users@[nk].modes.invisible { 1int } else { 0int }),
+        n.operators_count == o.operators_count - (if local_oper(o.users@[nk].modes) { 1int } else { 0int }),
+        n.max_users_count == o.max_users_count,
+        chans_wf(n),
+    ensures state_wf(n)
+{
+    lemma_inv_remove(o.users@, nk);
+    lemma_opr_remove(o.users@, nk);
+    assert forall|u: String, c: String| #![trigger n.users@[u].channels@.contains(c)] #![trigger member(n, u, c)]
+        (n.users@.contains_key(u) && n.users@[u].channels@.contains(c)) <==> member(n, u, c) by {
+        assert(post_chan(o.channels@, n.channels@, c, nk));
+        assert((o.users@.contains_key(u) && o.users@[u].channels@.contains(c)) <==> member(o, u, c));
+        if u != nk {
+            assert(n.users@.contains_key(u) == o.users@.contains_key(u));
+            if o.users@.contains_key(u) { assert(n.users@[u] == o.users@[u]); }
+            if member(o, u, c) {
+                if o.channels@[c].users@.contains_key(nk) {
+                    assert(o.channels@[c].users@.remove(nk).contains_key(u));
+                    if o.channels@[c].users@.remove(nk).len() == 0 {
+                        assert(o.channels@[c].users@.remove(nk).dom().len() == 0);
+                        assert(o.channels@[c].users@.remove(nk).dom() =~= Set::<String>::empty());
+                        assert(false);
+                    }
+                    assert(member(n, u, c));
+                } else {
+                    assert(member(n, u, c));
+                }
+            } else {
+                assert(!member(n, u, c));
+            }
+        } else {
+            assert(!n.users@.contains_key(u));
+            assert(!member(n, u, c));
+        }
+    }
+    assert(sym(n));
+    assert(no_empty_chan(n)) by {
+        assert forall|c: String| n.channels@.contains_key(c) && !(#[trigger] n.channels@[c]).preconfigured implies n.channels@[c].users@.len() > 0 by {
+            assert(post_chan(o.channels@, n.channels@, c, nk));
+            assert(o.channels@.contains_key(c));
+            assert(!o.channels@[c].preconfigured ==> o.channels@[c].users@.len() > 0);
+        }
+    }
+    assert(wallops_wf(n)) by {
+        assert forall|u: String| #[trigger] n.wallops_users@.contains(u) <==> (n.users@.contains_key(u) && n.users@[u].modes.wallops) by {
+            assert(o.wallops_users@.contains(u) <==> (o.users@.contains_key(u) && o.users@[u].modes.wallops));
+        }
+    }
+    assert(n.users@.len() <= o.users@.len());
+    assert(senders_distinct(n));
 }
